@@ -103,6 +103,51 @@ DmgClass(M, kind, flds, d) ==
       [] d.c = "variant" -> "variant:" \o Variants(M, kind)[d.a][1]
       [] OTHER -> d.c
 
+(* ---- the same damages on a file known only in part (the bundled models) ----
+   a corruption is a patch <<offset, bytes>> laid over the file; <<>> when the class does not apply (the two classes
+   that insert a header line move every later byte and are exercised on the miniature models only) *)
+BytesAt(f, o, n) == [i \in 1 .. n |-> At(f, o + i - 1)]
+PatchOf(f, fl, b, sw) ==
+    LET o == fl.off IN
+    IF fl.ty \in {"i32", "len", "ver"} THEN
+        LET v == fl.val
+            nv == CASE b = 1 -> 0 [] b = 2 -> (IF v > -2147483647 THEN v - 1 ELSE v) [] b = 3 -> (IF v < 2147483647 THEN v + 1 ELSE v)
+                    [] b = 4 -> 2147483647 [] b = 5 -> -1 [] b = 6 -> (IF v < 2147418112 THEN v + 65536 ELSE v) [] OTHER -> v
+        IN  IF b = 7 THEN <<o, Rev4(BytesAt(f, o, 4))>> ELSE <<o, Wr32(nv, sw)>>
+    ELSE IF fl.ty = "magic" THEN (IF b = 1 THEN <<o, Rev4(BytesAt(f, o, 4))>> ELSE <<o, <<239, 190, 173, 222>>>>)
+    ELSE IF fl.ty = "txt" THEN
+        (CASE b = 1 -> <<o + fl.val - 1, <<At(f, o + fl.val - 1) + 1>>>> [] b = 2 -> <<o, <<35>>>> [] OTHER -> <<>>)
+    ELSE IF fl.ty = "num" THEN
+        LET c == At(f, o) IN
+        (CASE b = 1 -> IF c > 48 THEN <<o, <<c - 1>>>> ELSE <<>> [] b = 2 -> IF c < 57 THEN <<o, <<c + 1>>>> ELSE <<>> [] OTHER -> <<o, <<48>>>>)
+    ELSE IF fl.ty = "sum" THEN <<o, <<Flip(At(f, o))>>>>
+    ELSE IF fl.ty = "data" /\ fl.val > 0 THEN
+        (IF b = 1 THEN <<o, <<Flip(At(f, o))>>>> ELSE <<o + fl.val - 1, <<Flip(At(f, o + fl.val - 1))>>>>)
+    ELSE <<>>
+PatchApplies(f, fl, b, sw) ==
+    IF b > NClasses(fl.ty) THEN FALSE
+    ELSE LET p == PatchOf(f, fl, b, sw) IN
+         IF p = <<>> THEN FALSE
+         ELSE /\ Known(f, p[1], Len(p[2])) /\ (\A i \in 1 .. Len(p[2]) : p[2][i] \in 0 .. 255) /\ p[2] # BytesAt(f, p[1], Len(p[2]))
+Patched(f, p) == [f EXCEPT !.chunks = <<[off |-> p[1], b |-> p[2]]>> \o @, !.sum = <<>>]
+
+FldSize(fl) == IF fl.ty \in {"i32", "len", "ver", "magic", "sum"} THEN 4 ELSE IF fl.ty = "num" THEN 1 ELSE fl.val
+(* truncation lengths worth trying on a large file: around every field and area the reader found, the first bytes,
+   every byte of a short header, the last bytes, and the lengths the driver drew at random *)
+TruncPoints(f, flds, hdrend, extra) ==
+    LET around == UNION {{flds[i].off - 1, flds[i].off, flds[i].off + 1, flds[i].off + 2, flds[i].off + 3,
+                          flds[i].off + FldSize(flds[i]) - 1, flds[i].off + FldSize(flds[i]), flds[i].off + FldSize(flds[i]) + 1} : i \in 1 .. Len(flds)}
+        ends == {f.len - 1, f.len - 2, f.len - 3, f.len - 4, f.len - 5, f.len - 8}
+        head == IF hdrend <= 256 THEN 0 .. hdrend + 4 ELSE {0, 1, 2, 3, 4, 7, 8, 11, 12}
+    IN  (around \cup ends \cup head \cup {extra[i] : i \in 1 .. Len(extra)}) \cap (0 .. f.len - 1)
+
+DirFromViews(views) ==
+    [k \in {Kinds[i] : i \in 1 .. Len(Kinds)} |->
+        IF \E j \in 1 .. Len(views) : views[j].kind = k
+        THEN LET v == views[CHOOSE j \in 1 .. Len(views) : views[j].kind = k]
+             IN  IF ~v.present THEN Missing ELSE [len |-> v.len, chunks |-> v.chunks, sum |-> IF v.sum = <<>> THEN <<>> ELSE v.sum]
+        ELSE Missing]
+
 (* ---- an intact instance and one damaged file in it ----
    I == IntactOf(i): the model's directory and what the readers make of it.  Root modules keep the tuple of all
    IntactOf(i) in a zero-arity definition of their own: TLC evaluates such a definition once only when it is in
